@@ -8,7 +8,7 @@
 (*         loader's result is compared with the machine's result               *)
 (*  variant : BufReader / Cursor / File readers: result and observation only    *)
 (*  cuts : every prefix of a file (C13)                                         *)
-EXTENDS AseRead, Json, IOUtils, TLC, FiniteSets, SequencesExt
+EXTENDS AseRead, AseBytes, Json, IOUtils
 FoldRun(reqs0, avail, calls) == FoldLeft(LAMBDA st, c : Step(st, c[1], c[2]), InitSt(reqs0, avail), calls)
 
 Rec == ndJsonDeserialize(IOEnv.TRACE)
@@ -32,6 +32,8 @@ TBase ==
         \* the baseline itself: full reads, needed bytes = end of the last frame, loads
         /\ Verdict(e.result = "ok" /\ fin.bad = "" /\ fin.result = "ok" /\ fin.pos = e.eof,
                    <<e.case, "reader_baseline", e.result, fin.bad, fin.pos, e.eof>>)
+        \* the bytes a loader needs, computed by the specification from the bytes alone
+        /\ Verdict(e.bytes = <<>> \/ EndOfFrames(e.bytes) = e.eof, <<e.case, "end_of_frames_differs", e.eof>>)
 
 TRun ==
   /\ IsEvent("run")
@@ -62,12 +64,19 @@ TCuts ==
          badCuts == {k \in 1..e.eof : ~IsErrResult(e.results[k])}      \* results[k] is the prefix of length k-1
      IN /\ Count(43, 1) /\ Count(44, e.eof)
         /\ Verdict(e.full = "ok" /\ e.results[e.eof + 1] = "ok", <<e.case, "cut_full_file_fails", e.full, e.results[e.eof + 1]>>)
+        /\ Verdict(e.bytes = <<>> \/ EndOfFrames(e.bytes) = e.eof, <<e.case, "end_of_frames_differs", e.eof>>)
         /\ Verdict(badCuts = {}, <<e.case, "cut_prefix_loaded", IF badCuts = {} THEN 0 ELSE (CHOOSE k \in badCuts : TRUE) - 1,
                                    IF badCuts = {} THEN "" ELSE e.results[CHOOSE k \in badCuts : TRUE], Cardinality(badCuts)>>)
   /\ UNCHANGED <<reqs, case>>
 
+\* a file that does not load in full is outside the quantifier (prefixes of VALID files); a crash is still rejected
+TSkip ==
+  /\ IsEvent("skip")
+  /\ Verdict(~Rec[l].crash, <<Rec[l].case, "reader_full_load_crashed", Rec[l].why>>)
+  /\ UNCHANGED <<reqs, case>>
+
 TraceInit == l = 1 /\ reqs = <<>> /\ case = "" /\ TLCSet(RejectReg, 0) /\ TLCSet(43, 0) /\ TLCSet(44, 0) /\ TLCSet(45, 0) /\ TLCSet(46, 0)
-TraceNext == TBase \/ TRun \/ TVariant \/ TCuts
+TraceNext == TBase \/ TRun \/ TVariant \/ TCuts \/ TSkip
 TraceSpec == TraceInit /\ [][TraceNext]_<<l, reqs, case>>
 TraceAccepted ==
   LET d == TLCGet("stats").diameter IN
